@@ -17,7 +17,7 @@ RULE = ("every list (order and repetition matter) of the stated length over the 
         "non-trivial = distinct (class, platform, list) whose output has fewer elements than the "
         "input (something was merged or dropped)")
 ASSUMPTIONS = ["exact union comparison by cube cover; element count by disjoint decomposition"]
-REQUIRED = ["merged_or_dropped", "unchanged_length", "refused_nc", "refused_foreign", "relined_ok"]
+REQUIRED = ["merged_or_dropped", "unchanged_length", "refused_nc", "refused_foreign", "relined_ok", "repointed_group_reference"]
 
 
 def blocks(seed):
@@ -187,6 +187,21 @@ def _relined(cls, platform, ctx):
             func([a, b])
             a.line = tk
             out = func([a, b])
+            if (i + j + k) % 3 == 0:
+                # an object born as a group reference WITH members, then re-pointed to a plain
+                # address: it denotes the plain address now
+                ref = _group_ref(cls, platform)
+                if ref:
+                    g = klass(ref, platform=platform, items=[ti])
+                    g.line = tk
+                    out2 = func([g, b])
+                    got2 = tuple(S.prefix_cube(int(o.ipnet.network_address), o.ipnet.prefixlen)
+                                 for o in out2)
+                    if not S.addr_equal(got2, (S.prefix_cube(*blk[k]), S.prefix_cube(*blk[j]))):
+                        ctx.viol(f"{cls}.collapse:stale_members_after_reassignment",
+                                 dict(case, group_reference=ref), [o.line for o in out2], [tk, tj])
+                        continue
+                    ctx.out("repointed_group_reference")
         except Exception as ex:  # noqa
             ctx.viol(f"{cls}.collapse:relined_exception", case, repr(ex), "collapsed list")
             continue
@@ -198,6 +213,12 @@ def _relined(cls, platform, ctx):
             ctx.out("relined_ok")
             ctx.nt((cls, platform, "relined", i, j, k))
     ctx.sample("relined", dict(cls=cls, platform=platform))
+
+
+def _group_ref(cls, platform):
+    if cls == "Address":
+        return "object-group G" if platform == "ios" else "addrgroup G"
+    return "group-object G" if platform == "ios" else None
 
 
 def _check_empty(cls, platform, ctx):
